@@ -152,16 +152,24 @@ theorem depth1 (h : Fam c A B T q fs) (down : Downstream) (bs : List FieldSpec) 
     List.zip_nil_right, List.getElem?_cons_zero, Option.getD_some, parseOne_child h.toFamT bs (pointQ q i) b,
     mergeResult_child q i a b hq1 hq2 hqne hbnd hdisj, pure, Except.pure, List.append_nil]
 
+/-- the calls of one request: one to `A`; one to `B` (the follow-up lookup for the entity with id
+    `i`) iff `B` owns a selected field -/
+def callsOf (c : PCtx) (A B T q : String) (fs : List FieldSpec) (i : String) : List Call :=
+  ⟨A, [rqOf c (rootStep A B T q fs) []]⟩ ::
+    (match fsB fs with
+     | [] => []
+     | _ :: _ => [⟨B, [rqOf c (stepB B T q (fsB fs)) [("id", .str i)]]⟩])
+
 /-- **Stage 3 — execute**: two depths (one if `B` owns nothing); the result is the object under `q`
-    with the helper id, `A`'s answers, then `B`'s answers. -/
-theorem stage_execute (h : Fam c A B T q fs) (down : Downstream) (i : String) (a b : List (String × J))
+    with the helper id, `A`'s answers, then `B`'s answers; the calls are `callsOf`. -/
+theorem stage_execute_calls (h : Fam c A B T q fs) (down : Downstream) (i : String) (a b : List (String × J))
     (hq1 : '#' ∉ q.toList) (hq2 : ':' ∉ q.toList) (hqne : q.toList ≠ []) (hine : i ≠ "")
     (hA : down A [rqOf c (rootStep A B T q fs) []] = .ok [respA q i a])
     (hB : fsB fs ≠ [] → down B [rqOf c (stepB B T q (fsB fs)) [("id", .str i)]] = .ok [[("node", .obj b)]])
     (hb0 : fsB fs = [] → b = [])
     (hbnd : (J.keys b).Nodup) (hdisj : ∀ k ∈ J.keys b, k ∉ J.keys (("id", J.str i) :: a)) :
-    ∃ calls, execute c {} none down [rootStep A B T q fs] []
-      = .ok ⟨[(q, .obj (("id", .str i) :: a ++ b))], calls⟩ := by
+    execute c {} none down [rootStep A B T q fs] []
+      = .ok ⟨[(q, .obj (("id", .str i) :: a ++ b))], callsOf c A B T q fs i⟩ := by
   have hd0 := depth0 h down i a hA
   unfold execute
   simp only [List.map_cons, List.map_nil]
@@ -174,7 +182,7 @@ theorem stage_execute (h : Fam c A B T q fs) (down : Downstream) (i : String) (a
     rw [hdepth, execLoop]
     simp only [List.isEmpty_cons, Bool.false_eq_true, ↓reduceIte, bind, Except.bind, hd0, hfb, stepsB,
       List.map_nil, execLoop]
-    exact ⟨[⟨A, [rqOf c (rootStep A B T q fs) []]⟩], by simp [respA, hb0 hfb]⟩
+    simp [respA, hb0 hfb, callsOf, hfb]
   | cons b0 bs =>
     have hdepth : stepsDepth [rootStep A B T q fs] = 2 := by
       simp [stepsDepth, stepDepth, rootStep, hfb, stepsB]
@@ -186,6 +194,17 @@ theorem stage_execute (h : Fam c A B T q fs) (down : Downstream) (i : String) (a
     rw [execLoop]
     simp only [List.isEmpty_cons, Bool.false_eq_true, ↓reduceIte, bind, Except.bind,
       depth1 h down (b0 :: bs) i a b _ hq1 hq2 hqne hine hB' hbnd hdisj, execLoop]
-    exact ⟨_, rfl⟩
+    simp [callsOf, hfb]
+
+/-- **Stage 3 — execute** (the calls left unnamed). -/
+theorem stage_execute (h : Fam c A B T q fs) (down : Downstream) (i : String) (a b : List (String × J))
+    (hq1 : '#' ∉ q.toList) (hq2 : ':' ∉ q.toList) (hqne : q.toList ≠ []) (hine : i ≠ "")
+    (hA : down A [rqOf c (rootStep A B T q fs) []] = .ok [respA q i a])
+    (hB : fsB fs ≠ [] → down B [rqOf c (stepB B T q (fsB fs)) [("id", .str i)]] = .ok [[("node", .obj b)]])
+    (hb0 : fsB fs = [] → b = [])
+    (hbnd : (J.keys b).Nodup) (hdisj : ∀ k ∈ J.keys b, k ∉ J.keys (("id", J.str i) :: a)) :
+    ∃ calls, execute c {} none down [rootStep A B T q fs] []
+      = .ok ⟨[(q, .obj (("id", .str i) :: a ++ b))], calls⟩ :=
+  ⟨_, stage_execute_calls h down i a b hq1 hq2 hqne hine hA hB hb0 hbnd hdisj⟩
 
 end PebblesVerif.Flat
